@@ -100,6 +100,16 @@ def opLoop (op : String) (a : List String) (st : DrvState) : Option (DrvState ×
     let ops ← (listArg ops ',').mapM parseAppOp
     let st1 := st.setLoop id { i with st := appCommit i.st ops }
     opLoop "loop.go" [id, next, fails, now] st1
+  | "loop.overdue", [id] => do
+    -- the harness turns the clock back: the last snapshot is now older than
+    -- `storage_force_snapshot_interval`. Only while the loop is at `loop.top` or `loop.sleep`
+    -- (the flag the code computes after the loads is then the one `loop.beforeInfo` reads);
+    -- anywhere else, and for a receive-only instance (`forceSnapshotEnabled` is false there),
+    -- nothing happens.
+    let i ← st.getLoop id
+    if (i.st.pc = .top ∨ i.st.pc = .sleep) ∧ i.cfg.txn.receiveOnly = false then
+      pure (st.setLoop id { i with st := armForce i.st }, "ok")
+    else pure (st, "ok")
   | "loop.loadfail", [id, n] => do
     -- transient download failures are retried by the downloader: no effect on what is delivered
     let _ ← st.getLoop id
